@@ -414,7 +414,7 @@ OpEffect(x, op0, ret) ==
       [] n = "eadd" ->
             IF ret # 1 THEN [w |-> x, out |-> <<>>, q |-> <<>>]
             ELSE LET x1 == IF op[3] \in x.aliveE THEN [x EXCEPT !.elocal[op[3]] = op[4]] ELSE x
-                 IN [w |-> RegisterW(x1, EWSysC, << <<"emut", op[3], 1>>, <<"eev", op[3], 1>> >>, FALSE), out |-> <<>>, q |-> <<>>]
+                 IN [w |-> RegisterW(x1, EWSysC, << <<"emut", op[3], 1>>, <<"eev", op[3], 1>>, <<"erem", op[3], 1>> >>, FALSE), out |-> <<>>, q |-> <<>>]
       [] n = "erem" ->
             (* revoke, then drop the local data of every entity named that no longer tracks this reactor [cleanup_reactor_data] *)
             LET x1 == RevokeW(x, EWSysC, op[3])
@@ -602,7 +602,8 @@ IssueW(x, op0) ==
       [] OTHER -> [w |-> x, ret |-> 0]
 
 (* the ops a free body may issue next; `go(op)` is the continuation *)
-EBundles(e) == { << <<"emut", e, 1>> >>, << <<"eev", e, 1>> >>, << <<"emut", e, 1>>, <<"eev", e, 1>> >> }
+EBundles(e) == { << <<"emut", e, 1>> >>, << <<"eev", e, 1>> >>, << <<"erem", e, 1>> >>, << <<"emut", e, 1>>, <<"eev", e, 1>> >>,
+                 << <<"emut", e, 1>>, <<"eev", e, 1>>, <<"erem", e, 1>> >> }
 SetVals == IF "coarse" \in Features THEN (1..NVal) \cup { 100 + v : v \in 1..NVal } ELSE 1..NVal
 DirectOps == {"xrm", "xdesp", "xdesprec", "xbc", "xeev", "xsysev"}
 NeedAccess == {"resmut", "resset", "resno", "mut", "set", "noreact", "wadd", "wrem", "wrun", "eadd", "erem", "sysevsig", "smut", "sset", "sno"}
